@@ -876,6 +876,12 @@ TARGETS = [
                    "len(frequency)": ("n_frequency", "int")},
          params=[("f_low", "onum"), ("f_high", "onum"), ("nearest_low", "int"), ("nearest_high", "int"), ("n_frequency", "int")],
          out=["return"], out_types=["int", "int"]),
+    # TimeSeries.trim: the three refusals, then the samples nearest to the two times (np.argmin of |t - time| is an input)
+    dict(group="Trim", name="trim_indices", file="hvsrpy/timeseries.py", cls="TimeSeries", func="trim", check_args=["self", "start_time", "end_time"],
+         abstract={"current_time[-1]": "t_last", "np.argmin(np.absolute(current_time - start_time))": ("nearest_start", "int"),
+                   "np.argmin(np.absolute(current_time - end_time))": ("nearest_end", "int")},
+         params=[("start_time", "num"), ("end_time", "num"), ("t_last", "num"), ("nearest_start", "int"), ("nearest_end", "int")],
+         out=["start_index", "end_index"], out_types=["int", "int"], stop_before="self.amplitude", option=True),
     # frequency-domain window rejection: the accept decision of the inner loop (None = window skipped, its masks are kept) ...
     dict(group="Fdwra", name="fdwra_keep", file="hvsrpy/window_rejection.py", func="_frequency_domain_window_rejection",
          descend=["c_iteration", "c_peak"], params=[("c_valid", "bool"), ("c_peak", "num"), ("lower_bound", "num"), ("upper_bound", "num")],
@@ -888,7 +894,7 @@ TARGETS = [
 ]
 
 
-GROUPS = ["Combine", "Azimuth", "Orient", "Windows", "Stats", "Sesame", "Fdwra", "Psd", "Nyquist", "Spatial", "Split", "Readers", "Peaks"]
+GROUPS = ["Combine", "Azimuth", "Orient", "Windows", "Stats", "Sesame", "Fdwra", "Psd", "Nyquist", "Spatial", "Split", "Readers", "Peaks", "Trim"]
 
 
 def emit(repo):
